@@ -9,7 +9,7 @@ def reach(tag="end"):
     """Marks an interior point. Normal run: True. Twin run for `tag`: False, so that the
     harness' `if not reach(tag): return False` makes the postcondition fail exactly when the
     point is reachable under the preconditions."""
-    return TWIN != tag
+    return TWIN != tag  # TWIN is (re)set by the worker for every request
 
 
 def arr(values, plain_dtype=None):
